@@ -1,10 +1,11 @@
 (* Interface lemmas consumed by the ledger proofs (Ledger/Amount.v):
      parse_wf, nnfixed_ok, posfixed_ok, cmp_units, parse_to_string.
    Imports only the model Dec.v and DecLemmas.v (num_digits_spec, digit strings). *)
-From Coq Require Import List ZArith NArith Bool Lia Strings.Byte.
+From Coq Require Import List ZArith NArith Bool Lia Strings.Byte Strings.String.
 Require Import Regen.Base.Bytes Regen.Dec.Dec Regen.Dec.DecLemmas.
 Import ListNotations.
 Local Open Scope Z_scope.
+Local Arguments b s%string_scope.
 
 (* ------------------------------------------------------------------ *)
 (* Inversion of parse                                                  *)
@@ -43,8 +44,8 @@ Qed.
 Lemma parse_finite_inv neg s d : parse_finite neg s = Ok d -> dneg d = neg /\ 0 <= dcoef d.
 Proof.
   unfold parse_finite, bind. intro H.
-  destruct (match index_byte "e" s with Some _ => _ | None => _ end) as [[m exps]|]; [|discriminate].
-  destruct (match index_byte "." m with Some _ => _ | None => _ end) as [m' exps'].
+  destruct (match index_byte "e"%byte s with Some _ => _ | None => _ end) as [[m exps]|]; [|discriminate].
+  destruct (match index_byte "."%byte m with Some _ => _ | None => _ end) as [m' exps'].
   destruct (bigint_set_string m') as [c|]; [|discriminate].
   destruct (set_exponent _ exps') as [d1|] eqn:E1; [|discriminate].
   unfold round0 in H. destruct (set_exponent d1 _) as [d2|] eqn:E2; [|discriminate].
@@ -125,8 +126,8 @@ Lemma digits_lt A C x y : 0 < A -> 0 < C -> 0 <= x -> 0 <= y ->
 Proof.
   intros HA HC Hx Hy Hlt.
   pose proof (num_digits_spec A HA) as [_ HA2]. pose proof (num_digits_spec C HC) as [HC1 _].
-  pose proof (num_digits_ge1 A). pose proof (num_digits_ge1 C).
-  pose proof (pow10_gt0 x Hx). pose proof (pow10_gt0 y Hy).
+  pose proof (num_digits_ge1 A) as GA. pose proof (num_digits_ge1 C) as GC.
+  pose proof (pow10_gt0 x Hx) as Px. pose proof (pow10_gt0 y Hy) as Py.
   assert (H1 : A * 10 ^ x < 10 ^ (num_digits A + x)) by (rewrite pow10_add by lia; nia).
   assert (H2 : 10 ^ (num_digits A + x) <= 10 ^ (num_digits C - 1 + y)) by (apply pow10_le; lia).
   assert (H3 : 10 ^ (num_digits C - 1 + y) <= C * 10 ^ y) by (rewrite pow10_add by lia; nia).
@@ -139,19 +140,19 @@ Proof.
   intros HA HC Hea Hec. unfold cmp_mag.
   pose proof (pow10_gt0 _ Hea) as Pa. pose proof (pow10_gt0 _ Hec) as Pc.
   destruct (ea =? ec) eqn:E.
-  - apply Z.eqb_eq in E. subst ec. symmetry. apply Z.mul_compare_mono_r. exact Pa.
+  - apply Z.eqb_eq in E. subst ec. apply Zmult_compare_compat_r. lia.
   - apply Z.eqb_neq in E. cbv zeta.
     destruct (num_digits A + ea <? num_digits C + ec) eqn:E1.
-    { apply Z.ltb_lt in E1. symmetry. apply Z.compare_lt_iff. apply digits_lt; try assumption. lia. }
+    { apply Z.ltb_lt in E1. symmetry. apply Z.compare_lt_iff. apply digits_lt; try assumption. clear - E1. lia. }
     destruct (num_digits A + ea >? num_digits C + ec) eqn:E2.
-    { apply Z.gtb_lt in E2. symmetry. apply Z.compare_gt_iff. apply digits_lt; try assumption. lia. }
+    { apply Z.gtb_lt in E2. symmetry. apply Z.compare_gt_iff. apply digits_lt; try assumption. clear - E2. lia. }
     destruct (ea <? ec) eqn:E3.
     + apply Z.ltb_lt in E3.
-      replace (ec + p) with ((ec - ea) + (ea + p)) by lia. rewrite pow10_add by lia.
-      rewrite Z.mul_assoc. symmetry. apply Z.mul_compare_mono_r. exact Pa.
+      replace (ec + p) with ((ec - ea) + (ea + p)) by lia. rewrite (pow10_add (ec - ea) (ea + p)) by lia.
+      rewrite Z.mul_assoc. apply Zmult_compare_compat_r. lia.
     + apply Z.ltb_ge in E3.
-      replace (ea + p) with ((ea - ec) + (ec + p)) by lia. rewrite pow10_add by lia.
-      rewrite Z.mul_assoc. symmetry. apply Z.mul_compare_mono_r. exact Pc.
+      replace (ea + p) with ((ea - ec) + (ec + p)) by lia. rewrite (pow10_add (ea - ec) (ec + p)) by lia.
+      rewrite Z.mul_assoc. apply Zmult_compare_compat_r. lia.
 Qed.
 
 Lemma cmp_same_sign neg A ea C ec :
@@ -183,23 +184,313 @@ Proof.
     [apply Z.eqb_eq in EA | apply Z.eqb_eq in EA | apply Z.eqb_neq in EA | apply Z.eqb_neq in EA];
     [apply Z.eqb_eq in EC | apply Z.eqb_neq in EC | apply Z.eqb_eq in EC | apply Z.eqb_neq in EC].
   - (* both zero *)
-    subst A C. cbn [Z.ltb Z.gtb Z.eqb Z.compare andb].
-    destruct na, nc; cbn; reflexivity.
+    subst A C.
+    destruct na, nc; remember (_ * 10 ^ (ea + p) ?= _ * 10 ^ (ec + p)) as rhs eqn:Hr; cbn; subst rhs;
+      symmetry; apply Z.compare_eq_iff; lia.
   - (* a zero *)
     subst A. assert (0 < C * 10 ^ (ec + p)) by nia.
-    destruct na, nc; cbn [Z.opp Z.mul Z.ltb Z.gtb Z.eqb Z.compare andb];
+    destruct na, nc; remember (_ * 10 ^ (ea + p) ?= _ * 10 ^ (ec + p)) as rhs eqn:Hr; cbn; subst rhs;
       symmetry; first [apply Z.compare_lt_iff; lia | apply Z.compare_gt_iff; lia].
   - (* c zero *)
     subst C. assert (0 < A * 10 ^ (ea + p)) by nia.
-    destruct na, nc; cbn [Z.opp Z.mul Z.ltb Z.gtb Z.eqb Z.compare andb];
-      rewrite ?Z.mul_0_l; symmetry; first [apply Z.compare_lt_iff; lia | apply Z.compare_gt_iff; lia].
+    destruct na, nc; remember (_ * 10 ^ (ea + p) ?= _ * 10 ^ (ec + p)) as rhs eqn:Hr; cbn; subst rhs;
+      symmetry; first [apply Z.compare_lt_iff; lia | apply Z.compare_gt_iff; lia].
   - (* both non-zero *)
     assert (HA' : 0 < A) by lia. assert (HC' : 0 < C) by lia.
     assert (0 < A * 10 ^ (ea + p)) by nia. assert (0 < C * 10 ^ (ec + p)) by nia.
     rewrite (cmp_mag_spec A ea C ec p HA' HC' Hea Hec).
-    destruct na, nc; cbn [Z.ltb Z.gtb Z.eqb Z.compare andb cmp_flip].
+    remember (A * 10 ^ (ea + p) ?= C * 10 ^ (ec + p)) as m eqn:Hm.
+    destruct na, nc; remember (_ * 10 ^ (ea + p) ?= _ * 10 ^ (ec + p)) as rhs eqn:Hr; cbn; subst rhs m.
     + rewrite !Z.mul_opp_l. rewrite compare_opp_opp. reflexivity.
     + symmetry. apply Z.compare_lt_iff. lia.
     + symmetry. apply Z.compare_gt_iff. lia.
     + reflexivity.
 Qed.
+
+(* ------------------------------------------------------------------ *)
+(* Rendering then re-parsing                                           *)
+(* ------------------------------------------------------------------ *)
+
+(* bytes that String() can produce after the sign *)
+Definition plainb (c : byte) : bool := is_digit c || Byte.eqb c "."%byte.
+
+Lemma is_digit_cases f : is_digit f = true ->
+  f = x30 \/ f = x31 \/ f = x32 \/ f = x33 \/ f = x34 \/ f = x35 \/ f = x36 \/ f = x37 \/ f = x38 \/ f = x39.
+Proof. destruct f; cbn; intro H; try discriminate H; tauto. Qed.
+
+Lemma plainb_cases f : plainb f = true -> is_digit f = true \/ f = "."%byte.
+Proof.
+  unfold plainb. intro H. apply orb_true_iff in H. destruct H as [H|H]; [left; exact H|right].
+  apply byte_eqb_eq. exact H.
+Qed.
+
+Lemma go_to_lower_plain s : forallb plainb s = true -> go_to_lower s = s.
+Proof.
+  induction s as [|c r IH]; [reflexivity|]. cbn [forallb]. intro H.
+  apply andb_true_iff in H. destruct H as [Hc Hr]. specialize (IH Hr).
+  apply plainb_cases in Hc. destruct Hc as [Hc|Hc].
+  - apply is_digit_cases in Hc.
+    repeat (destruct Hc as [Hc|Hc]; [subst c; cbn [go_to_lower]; rewrite IH; reflexivity|]).
+    subst c; cbn [go_to_lower]; rewrite IH; reflexivity.
+  - subst c; cbn [go_to_lower]; rewrite IH; reflexivity.
+Qed.
+
+Lemma digits_plain s : forallb is_digit s = true -> forallb plainb s = true.
+Proof.
+  induction s as [|c r IH]; [reflexivity|]. cbn [forallb]. intro H.
+  apply andb_true_iff in H. destruct H as [Hc Hr]. unfold plainb at 1. rewrite Hc, (IH Hr). reflexivity.
+Qed.
+
+Lemma index_byte_none c s : is_digit c = false -> forallb is_digit s = true -> index_byte c s = None.
+Proof.
+  intros Hc. induction s as [|a r IH]; [reflexivity|]. cbn [forallb index_byte]. intro H.
+  apply andb_true_iff in H. destruct H as [Ha Hr].
+  destruct (Byte.eqb a c) eqn:E.
+  - apply byte_eqb_eq in E. subst a. congruence.
+  - rewrite (IH Hr). reflexivity.
+Qed.
+
+Lemma index_byte_app c s t : is_digit c = false -> forallb is_digit s = true ->
+  index_byte c (s ++ c :: t) = Some (List.length s).
+Proof.
+  intros Hc. induction s as [|a r IH]; cbn [forallb index_byte app List.length]; intro H.
+  - rewrite (proj2 (byte_eqb_eq c c) eq_refl). reflexivity.
+  - apply andb_true_iff in H. destruct H as [Ha Hr].
+    destruct (Byte.eqb a c) eqn:E.
+    + apply byte_eqb_eq in E. subst a. congruence.
+    + rewrite (IH Hr). reflexivity.
+Qed.
+
+Lemma index_byte_e_plain s : forallb plainb s = true -> index_byte "e"%byte s = None.
+Proof.
+  induction s as [|a r IH]; [reflexivity|]. cbn [forallb index_byte]. intro H.
+  apply andb_true_iff in H. destruct H as [Ha Hr]. rewrite (IH Hr).
+  destruct (Byte.eqb a "e"%byte) eqn:E; [|reflexivity].
+  apply byte_eqb_eq in E. subst a. discriminate Ha.
+Qed.
+
+Lemma firstn_len_app (s t : bytes) : firstn (List.length s) (s ++ t) = s.
+Proof. induction s as [|a r IH]; cbn; [destruct t; reflexivity | rewrite IH; reflexivity]. Qed.
+
+Lemma skipn_S_len_app (s : bytes) c t : skipn (S (List.length s)) (s ++ c :: t) = t.
+Proof. induction s as [|a r IH]; cbn; [reflexivity | exact IH]. Qed.
+
+Lemma bigint_digits s : s <> [] -> forallb is_digit s = true ->
+  bigint_set_string s = Some (dec_digits_val s).
+Proof.
+  destruct s as [|c r]; [congruence|]. intros _ H. pose proof H as H0.
+  cbn [forallb] in H. apply andb_true_iff in H. destruct H as [Hc Hr].
+  unfold bigint_set_string, all_digits. apply is_digit_cases in Hc.
+  repeat (destruct Hc as [Hc|Hc]; [subst c; rewrite H0; reflexivity|]).
+  subst c; rewrite H0; reflexivity.
+Qed.
+
+Definition finish (neg : bool) (c : Z) (xs : list Z) : res dec :=
+  bind (set_exponent (mkDec neg c 0) xs) (fun d =>
+  bind (round0 d) (fun d' => if dcoef d' <? 0 then Err EParse else Ok d')).
+
+Lemma pf_nopoint neg ds : ds <> [] -> forallb is_digit ds = true ->
+  parse_finite neg ds = finish neg (dec_digits_val ds) [].
+Proof.
+  intros Hne Hd. unfold parse_finite.
+  rewrite (index_byte_none "e"%byte ds eq_refl Hd). cbn [bind].
+  rewrite (index_byte_none "."%byte ds eq_refl Hd).
+  rewrite (bigint_digits ds Hne Hd). reflexivity.
+Qed.
+
+Lemma pf_point neg ip fp : forallb is_digit ip = true -> forallb is_digit fp = true -> ip ++ fp <> [] ->
+  parse_finite neg (ip ++ "."%byte :: fp) =
+  finish neg (dec_digits_val (ip ++ fp)) [- Z.of_nat (List.length fp)].
+Proof.
+  intros Hi Hf Hne. unfold parse_finite.
+  rewrite index_byte_e_plain.
+  2:{ rewrite forallb_app. rewrite (digits_plain ip Hi). cbn [forallb]. rewrite (digits_plain fp Hf). reflexivity. }
+  cbn [bind]. rewrite (index_byte_app "."%byte ip fp eq_refl Hi).
+  rewrite firstn_len_app, skipn_S_len_app.
+  rewrite bigint_digits; [|exact Hne|rewrite forallb_app, Hi, Hf; reflexivity].
+  cbn [app]. replace (Z.of_nat (List.length (ip ++ "."%byte :: fp)) - Z.of_nat (List.length ip) - 1) with (Z.of_nat (List.length fp)).
+  - reflexivity.
+  - rewrite app_length. cbn [List.length]. lia.
+Qed.
+
+Lemma eqb_nondigit_digit c f : is_digit c = false -> is_digit f = true -> Byte.eqb c f = false.
+Proof.
+  intros Hc Hf. destruct (Byte.eqb c f) eqn:E; [|reflexivity]. apply byte_eqb_eq in E. congruence.
+Qed.
+
+Lemma parse_plain (neg : bool) f rest : is_digit f = true -> forallb plainb rest = true ->
+  parse ((if neg then b "-" else []) ++ f :: rest) = parse_finite neg (f :: rest).
+Proof.
+  intros Hf Hr. pose proof (go_to_lower_plain rest Hr) as Hl. apply is_digit_cases in Hf.
+  assert (G : parse ((if neg then b "-" else []) ++ f :: rest) = parse_finite neg (f :: go_to_lower rest)).
+  { repeat (destruct Hf as [Hf|Hf]; [subst f; destruct neg; reflexivity|]).
+    subst f; destruct neg; reflexivity. }
+  rewrite G, Hl. reflexivity.
+Qed.
+
+Lemma zsum_single x : zsum [x] = x.
+Proof. unfold zsum. cbn [fold_left]. apply Z.add_0_l. Qed.
+
+Lemma set_exponent_ok d xs : forallb exp_in_limits xs = true ->
+  min_exponent <= zsum xs + num_digits (dcoef d) - 1 <= max_exponent ->
+  set_exponent d xs = Ok (mkDec (dneg d) (dcoef d) (zsum xs)).
+Proof.
+  intros Hxs Hadj. unfold set_exponent. rewrite Hxs.
+  assert (E : ((zsum xs + num_digits (dcoef d) - 1 >? max_exponent) ||
+               (zsum xs + num_digits (dcoef d) - 1 <? min_exponent)) = false).
+  { apply orb_false_iff. split; [rewrite Z.gtb_ltb; apply Z.ltb_ge; lia | apply Z.ltb_ge; lia]. }
+  rewrite E. reflexivity.
+Qed.
+
+Lemma finish_ok neg C xs : 0 <= C -> forallb exp_in_limits xs = true -> exp_in_limits (zsum xs) = true ->
+  min_exponent <= zsum xs + num_digits C - 1 <= max_exponent ->
+  finish neg C xs = Ok (mkDec neg C (zsum xs)).
+Proof.
+  intros HC Hxs Hs Hadj. unfold finish.
+  rewrite set_exponent_ok; [|exact Hxs|exact Hadj]. cbn [bind dneg dcoef dexp].
+  unfold round0. cbn [dexp].
+  rewrite set_exponent_ok; cbn [dneg dcoef dexp forallb]; rewrite ?zsum_single.
+  - cbn [bind dcoef]. destruct (C <? 0) eqn:E2; [apply Z.ltb_lt in E2; lia|reflexivity].
+  - rewrite Hs. reflexivity.
+  - exact Hadj.
+Qed.
+
+Lemma forallb_firstn {A} (f : A -> bool) n l : forallb f l = true -> forallb f (firstn n l) = true.
+Proof.
+  revert l. induction n as [|n IH]; intros [|a l]; cbn; try reflexivity. intro H.
+  apply andb_true_iff in H. destruct H as [Ha Hl]. rewrite Ha, (IH l Hl). reflexivity.
+Qed.
+
+Lemma forallb_skipn {A} (f : A -> bool) n l : forallb f l = true -> forallb f (skipn n l) = true.
+Proof.
+  revert l. induction n as [|n IH]; intros [|a l]; cbn; try reflexivity; try (intro H; exact H). intro H.
+  apply andb_true_iff in H. destruct H as [Ha Hl]. apply IH. exact Hl.
+Qed.
+
+(* what re-parsing the rendering of d yields: d itself when there is no positive exponent,
+   otherwise the exponent is folded into the coefficient *)
+Definition reparsed (d : dec) : dec :=
+  if dexp d <=? 0 then d else mkDec (dneg d) (dcoef d * 10 ^ dexp d) 0.
+
+(* the exponent limits under which the rendering parses again *)
+Definition reparse_ok (d : dec) : Prop :=
+  if dexp d <=? 0
+  then min_exponent <= dexp d /\ min_exponent <= dexp d + num_digits (dcoef d) - 1 <= max_exponent
+  else num_digits (dcoef d * 10 ^ dexp d) - 1 <= max_exponent.
+
+Theorem parse_to_string_gen d : dwf d -> reparse_ok d -> parse (to_string d) = Ok (reparsed d).
+Proof.
+  destruct d as [neg C e]. unfold dwf, reparse_ok, reparsed. cbn [dneg dcoef dexp]. intros HC Hok.
+  destruct (Z_to_dec_spec C HC) as (Hne & Hall & Hval).
+  unfold to_string. cbn [dneg dcoef dexp].
+  remember (Z_to_dec C) as digits eqn:Hd. clear Hd.
+  destruct digits as [|f r]; [congruence|]. clear Hne.
+  pose proof Hall as Hall0. cbn [forallb] in Hall. apply andb_true_iff in Hall. destruct Hall as [Hf Hr].
+  change (if neg then b "-" else []) with (if neg then b "-" else ([] : bytes)).
+  destruct (e <? 0) eqn:Ee.
+  - (* negative exponent *)
+    apply Z.ltb_lt in Ee. assert (Ele : (e <=? 0) = true) by (apply Z.leb_le; lia). rewrite Ele in *.
+    destruct Hok as [Hmin Hadj].
+    assert (Hlim : exp_in_limits e = true).
+    { unfold exp_in_limits. apply andb_true_iff. split; apply Z.leb_le; [exact Hmin | unfold max_exponent; lia]. }
+    set (len := Z.of_nat (List.length (f :: r))).
+    destruct (- e - len >=? 0) eqn:El.
+    + (* 0.000ddd *)
+      apply Z.geb_le in El.
+      change (b "0." ++ zeros (- e - len) ++ f :: r) with ("0"%byte :: [] ++ "."%byte :: (zeros (- e - len) ++ f :: r)).
+      rewrite parse_plain.
+      2: reflexivity.
+      2:{ cbn [app forallb]. rewrite forallb_app. rewrite (digits_plain _ (zeros_all_digits _)).
+          rewrite (digits_plain _ Hall0). reflexivity. }
+      change ("0"%byte :: [] ++ "."%byte :: (zeros (- e - len) ++ f :: r))
+        with (["0"%byte] ++ "."%byte :: (zeros (- e - len) ++ f :: r)).
+      rewrite pf_point.
+      2: reflexivity.
+      2:{ rewrite forallb_app, zeros_all_digits, Hall0. reflexivity. }
+      2: discriminate.
+      rewrite !dec_digits_val_app, zeros_val, Hval.
+      replace (dec_digits_val ["0"%byte]) with 0 by reflexivity. rewrite !Z.mul_0_l, !Z.add_0_l.
+      replace (- Z.of_nat (List.length (zeros (- e - len) ++ f :: r))) with e.
+      2:{ rewrite app_length, Nat2Z.inj_add, zeros_length by lia. fold len. lia. }
+      rewrite finish_ok.
+      * unfold zsum. cbn [fold_left]. rewrite Z.add_0_l. reflexivity.
+      * exact HC.
+      * cbn [forallb]. rewrite Hlim. reflexivity.
+      * unfold zsum. cbn [fold_left]. rewrite Z.add_0_l. exact Hlim.
+      * unfold zsum. cbn [fold_left]. rewrite Z.add_0_l. exact Hadj.
+    + (* ddd.ddd *)
+      rewrite Z.geb_leb in El. apply Z.leb_gt in El.
+      set (off := Z.to_nat (- (- e - len))).
+      assert (Hoff : (0 < off < List.length (f :: r))%nat) by (subst off len; lia).
+      change (firstn off (f :: r) ++ b "." ++ skipn off (f :: r))
+        with (firstn off (f :: r) ++ "."%byte :: skipn off (f :: r)).
+      pose proof (forallb_firstn is_digit off _ Hall0) as Hfi.
+      pose proof (forallb_skipn is_digit off _ Hall0) as Hsk.
+      pose proof (firstn_skipn off (f :: r)) as Hfs.
+      pose proof (skipn_length off (f :: r)) as Hsl.
+      remember (firstn off (f :: r)) as ip eqn:Hip. remember (skipn off (f :: r)) as fp eqn:Hfp.
+      assert (Hipne : ip <> []).
+      { subst ip. destruct off as [|o]; [lia|]. cbn. discriminate. }
+      destruct ip as [|f0 ip']; [congruence|].
+      pose proof Hfi as Hfi0. cbn [forallb] in Hfi. apply andb_true_iff in Hfi. destruct Hfi as [Hf0 Hip'].
+      cbn [app]. rewrite parse_plain.
+      2: exact Hf0.
+      2:{ rewrite forallb_app. rewrite (digits_plain _ Hip'). cbn [forallb]. rewrite (digits_plain _ Hsk). reflexivity. }
+      change (f0 :: ip' ++ "."%byte :: fp) with ((f0 :: ip') ++ "."%byte :: fp).
+      rewrite pf_point; [|exact Hfi0|exact Hsk|discriminate].
+      rewrite Hfs, Hval.
+      replace (- Z.of_nat (List.length fp)) with e by (rewrite Hsl; subst off len; lia).
+      rewrite finish_ok.
+      * unfold zsum. cbn [fold_left]. rewrite Z.add_0_l. reflexivity.
+      * exact HC.
+      * cbn [forallb]. rewrite Hlim. reflexivity.
+      * unfold zsum. cbn [fold_left]. rewrite Z.add_0_l. exact Hlim.
+      * unfold zsum. cbn [fold_left]. rewrite Z.add_0_l. exact Hadj.
+  - (* exponent >= 0: digits followed by zeros *)
+    apply Z.ltb_ge in Ee.
+    change ((f :: r) ++ zeros e) with (f :: (r ++ zeros e)).
+    rewrite parse_plain.
+    2: exact Hf.
+    2:{ rewrite forallb_app. rewrite (digits_plain _ Hr), (digits_plain _ (zeros_all_digits _)). reflexivity. }
+    change (f :: (r ++ zeros e)) with ((f :: r) ++ zeros e).
+    rewrite pf_nopoint; [|discriminate|rewrite forallb_app, Hall0, zeros_all_digits; reflexivity].
+    rewrite dec_digits_val_app, zeros_val, Hval, zeros_length, Z.add_0_r by exact Ee.
+    assert (Hz : exp_in_limits 0 = true) by reflexivity.
+    destruct (e <=? 0) eqn:Ele.
+    + apply Z.leb_le in Ele. assert (e = 0) by lia. subst e.
+      rewrite Z.pow_0_r, Z.mul_1_r. destruct Hok as [_ Hadj].
+      rewrite finish_ok; [reflexivity | exact HC | reflexivity | exact Hz | exact Hadj].
+    + apply Z.leb_gt in Ele. pose proof (pow10_gt0 e Ee) as Hp.
+      pose proof (num_digits_ge1 (C * 10 ^ e)) as Hge.
+      rewrite finish_ok; [reflexivity | nia | reflexivity | exact Hz |].
+      unfold zsum, min_exponent. cbn [fold_left]. lia.
+Qed.
+
+Lemma num_digits_le c n : 0 <= c < 10 ^ n -> 1 <= n -> num_digits c <= n.
+Proof.
+  intros [H0 H1] Hn. destruct (Z.eq_dec c 0) as [->|Hnz]; [rewrite num_digits_0; exact Hn|].
+  assert (Hc : 0 < c) by lia. pose proof (num_digits_spec c Hc) as [Hs _].
+  pose proof (num_digits_ge1 c) as Hge.
+  destruct (Z_lt_le_dec n (num_digits c)) as [Hlt|Hle]; [|exact Hle].
+  assert (10 ^ n <= 10 ^ (num_digits c - 1)) by (apply pow10_le; lia). lia.
+Qed.
+
+(* Rendering then re-parsing gives back the very same record when the exponent is not positive
+   (true of every credit amount: those have dexp <= 0). *)
+Theorem parse_to_string d : dwf d -> -100000 <= dexp d <= 0 -> dcoef d < 10 ^ 100000 ->
+  parse (to_string d) = Ok d.
+Proof.
+  intros Hwf He Hc. rewrite parse_to_string_gen; [|exact Hwf|].
+  - clear Hc. unfold reparsed. destruct (dexp d <=? 0) eqn:E; [reflexivity|apply Z.leb_gt in E; lia].
+  - unfold reparse_ok. destruct (dexp d <=? 0) eqn:E; [|apply Z.leb_gt in E; clear Hc; lia].
+    pose proof (num_digits_ge1 (dcoef d)) as Hge.
+    assert (Hnd : num_digits (dcoef d) <= 100000) by (apply num_digits_le; [split; [exact Hwf|exact Hc]|clear; lia]).
+    clear Hc. unfold min_exponent, max_exponent. lia.
+Qed.
+
+Example parse_to_string_ex :
+  parse (to_string (mkDec false 1234500 (-6))) = Ok (mkDec false 1234500 (-6)) /\
+  to_string (mkDec false 1234500 (-6)) = b "1.234500" /\
+  parse (to_string (mkDec true 5 (-3))) = Ok (mkDec true 5 (-3)) /\
+  parse (to_string (mkDec false 12 3)) = Ok (mkDec false 12000 0).
+Proof. repeat split; vm_compute; reflexivity. Qed.
